@@ -37,7 +37,13 @@ theorem childStep_errors (A : Arena) (oc : OC) (n root i : Nat) (q : QN) :
       e ∈ ls.errors ∨ e.index = i := by
   intro fuel
   induction fuel with
-  | zero => intro ls e h; exact .inl h
+  | zero =>
+    intro ls e h
+    unfold childStep at h
+    simp only [List.mem_append, List.mem_singleton] at h
+    rcases h with h | h
+    · exact .inl h
+    · exact .inr (by rw [h])
   | succ f ih =>
     intro ls e h
     unfold childStep at h
@@ -95,6 +101,128 @@ theorem error_index_in_range (A : Arena) (n root : Nat) (w : List QN) (oc : OC) 
       · split at he
         · simp only [List.mem_singleton] at he; subst he; exact Nat.le_refl _
         · simp at he
+
+/-! ### no foreign child is ever accepted (holds for the whole algorithm, every model) -/
+
+theorem leafMatches_base (A : Arena) (c : Option Cnt) (e : Nat) (q : QN)
+    (h : leafMatches A c e q = true) : baseMatch A e q = true := by
+  unfold leafMatches at h
+  unfold baseMatch
+  simp only at h ⊢
+  cases hk : (A.node e).kind <;> simp only [hk] at h ⊢
+  · exact h
+  · simp only [Bool.and_eq_true] at h
+    exact h.1
+  all_goals cases h
+
+theorem visitorMatchO_base (A : Arena) (oc : OC) (s : St) (q : QN)
+    (h : (visitorMatchO A oc s q).1 = true) : ∃ e, baseMatch A e q = true := by
+  unfold visitorMatchO at h
+  simp only at h
+  have hv : visitorMatch A s q = true → ∃ e, baseMatch A e q = true := by
+    intro hv
+    unfold visitorMatch at hv
+    split at hv
+    · cases hv
+    · rename_i e _
+      split at hv
+      · cases hv
+      · exact ⟨e, leafMatches_base A _ e q hv⟩
+  split at h
+  · exact hv h
+  · split at h
+    · exact hv h
+    · split at h
+      · cases h
+      · rename_i hw
+        simp only [Bool.not_eq_true, Bool.not_eq_false'] at hw
+        exact ⟨oc.wild, leafMatches_base A _ _ q (by simpa using hw)⟩
+
+theorem append_singleton_ne_self {α : Type} (l : List α) (x : α) : l ++ [x] ≠ l := by
+  intro h
+  have := congrArg List.length h
+  simp at this
+
+/-- a child step that reports no new error has matched the child with some leaf -/
+theorem childStep_silent_matched (A : Arena) (oc : OC) (n root i : Nat) (q : QN) :
+    ∀ (fuel : Nat) (ls : LoopSt), (childStep A oc n root i q fuel ls).errors = ls.errors →
+      ∃ e, baseMatch A e q = true := by
+  intro fuel
+  induction fuel with
+  | zero =>
+    intro ls h
+    unfold childStep at h
+    exact absurd h (append_singleton_ne_self _ _)
+  | succ f ih =>
+    intro ls h
+    unfold childStep at h
+    simp only at h
+    split at h
+    · -- model ended: model-less match
+      split at h
+      · exact absurd h (append_singleton_ne_self _ _)
+      · rename_i e he
+        have := List.find?_some he
+        exact ⟨e, leafMatches_base A none e q this⟩
+    · split at h
+      · rename_i hm
+        exact visitorMatchO_base A oc ls.s q hm
+      · split at h <;> split at h
+        all_goals first
+          | exact absurd h (append_singleton_ne_self _ _)
+          | exact ih _ h
+
+/-- a child step never removes errors -/
+theorem childStep_extends (A : Arena) (oc : OC) (n root i : Nat) (q : QN) :
+    ∀ (fuel : Nat) (ls : LoopSt), ∃ t, (childStep A oc n root i q fuel ls).errors = ls.errors ++ t := by
+  intro fuel
+  induction fuel with
+  | zero => intro ls; unfold childStep; exact ⟨_, rfl⟩
+  | succ f ih =>
+    intro ls
+    unfold childStep
+    simp only
+    repeat' split
+    all_goals first
+      | exact ⟨_, rfl⟩
+      | exact ih _
+      | (refine ⟨[], ?_⟩; simp)
+
+/-- **An accepted child sequence contains only children that some particle of the model (or the
+    open-content wildcard) can match**: the implementation's algorithm never lets a foreign
+    child through, for every model, nesting, occurrence range and word. -/
+theorem accepted_children_admitted (A : Arena) (n root : Nat) (w : List QN) (oc : OC)
+    (h : verdict A n root w oc = true) : ∀ q ∈ w, ∃ e, baseMatch A e q = true := by
+  unfold verdict childErrors at h
+  simp only at h
+  split at h
+  · simp at h
+  · simp only [List.isEmpty_iff, List.append_eq_nil_iff] at h
+    have key : ∀ (l : List (QN × Nat)) (ls : LoopSt),
+        (l.foldl (fun ls (x : QN × Nat) => childStep A oc n root x.2 x.1 (4 * A.size + 8) ls) ls).errors = [] →
+        ls.errors = [] ∧ ∀ x ∈ l, ∃ e, baseMatch A e x.1 = true := by
+      intro l
+      induction l with
+      | nil => intro ls h; exact ⟨h, by simp⟩
+      | cons x t ih =>
+        intro ls h
+        simp only [List.foldl_cons] at h
+        obtain ⟨h1, h2⟩ := ih _ h
+        obtain ⟨t', ht'⟩ := childStep_extends A oc n root x.2 x.1 (4 * A.size + 8) ls
+        rw [ht'] at h1
+        obtain ⟨hl, ht0⟩ := List.append_eq_nil_iff.mp h1
+        refine ⟨hl, ?_⟩
+        intro y hy
+        rcases List.mem_cons.mp hy with rfl | hy
+        · apply childStep_silent_matched A oc n root y.2 y.1 (4 * A.size + 8) ls
+          rw [ht', ht0, List.append_nil]
+        · exact h2 y hy
+    obtain ⟨-, hall⟩ := key w.zipIdx _ h.1
+    intro q hq
+    obtain ⟨i, hi⟩ : ∃ i, (q, i) ∈ w.zipIdx := by
+      obtain ⟨k, hk, rfl⟩ := List.getElem_of_mem hq
+      exact ⟨k, by simp [List.mem_zipIdx_iff_getElem?, List.getElem?_eq_getElem hk]⟩
+    exact hall (q, i) hi
 
 /-! ### the pinned ModelVisitor is not a decision procedure (finding C01-F0)
 
